@@ -320,6 +320,13 @@ def run(ck):
     ok = len(lp) == 1 and 'new_molecule = self.run_molecule(molecule)' in u(lp[0]) and 'mols.append(new_molecule)' in u(lp[0]) and 'system.molecules = mols' in u(drs) \
         and 'system.force_field = self.to_ff' in u(drs)
     ck.ob('MPT-one-copy', mod.loc(drs), ok, 'every molecule of the system is converted, in system order, and the system is switched to the target force field', key='MPT-one-copy|run_system')
+    # the output adopts the exclusion count of the first block even when a modification placed atoms into it first (else the first block merge is refused)
+    nre = stmts_with_env(abm, lambda s_: isinstance(s_, ast.Assign) and u(s_.targets[0]) == 'graph_out.nrexcl')
+    mrg = calls_with_env(abm, lambda c: call_attr(c) == 'merge_molecule')
+    ok = len(nre) == 1 and len(mrg) == 1 and u(nre[0][0].value) == 'blocks_to.nrexcl' and nre[0][0].lineno < mrg[0][1].lineno and \
+        (flow.equivalent(nre[0][1], ('atom', ('Is', 'graph_out.nrexcl', 'None')))[0] or flow.equivalent(nre[0][1], ('atom', ('Is', 'None', 'graph_out.nrexcl')))[0])
+    ck.ob('MPT-one-copy', mod.loc(abm), ok, 'before a block is merged, an output that has no exclusion count yet adopts the block\'s (the merge itself only does so for an *empty* '
+          'receiver, and refuses differing counts)', key='MPT-one-copy|nrexcl-adopted')
     # ------------------------------------------------------------ modification mappings are chosen per connected group of modified atoms
     mm = mod.func('modification_matches')
     ck.analysed(mod, mm)
